@@ -399,3 +399,526 @@ Proof.
     apply orelse_good; [exact Hnull|intros _].
     apply orelse_good; [exact Hprev|intros _]. apply Hfull.
 Qed.
+
+(* ------------------------------------------------------------------ D: a refusal is complete *)
+
+Lemma check_block_fail_any t b li li' a al ty mo :
+  check_block t b li a al ty mo = CBFail -> check_block t b li' a al ty mo = CBFail.
+Proof.
+  unfold check_block. destruct (negb (b_free b)); [discriminate|].
+  destruct (b_size b <? _); [auto|].
+  destruct (check_conflict _ _ _ _ _ _) as [[al' [|]]|]; auto; try discriminate.
+  destruct (mo <=? al'); [auto|].
+  destruct li as [idx|]; [destruct (_ || _)|]; discriminate.
+Qed.
+
+Lemma check_block_ok_any t b li li' a al ty mo t1 r1 :
+  check_block t b li a al ty mo = CBOk t1 r1 ->
+  exists t2 r2, check_block t b li' a al ty mo = CBOk t2 r2 /\ rq_offset r2 = rq_offset r1.
+Proof.
+  unfold check_block. destruct (negb (b_free b)); [discriminate|].
+  destruct (b_size b <? _); [discriminate|].
+  destruct (check_conflict _ _ _ _ _ _) as [[al' [|]]|]; try discriminate.
+  destruct (mo <=? al'); [discriminate|].
+  intros H.
+  assert (Ho : rq_offset r1 = al').
+  { destruct li as [idx|]; [destruct (_ || _)|]; injection H as _ <-; reflexivity. }
+  destruct li' as [idx'|]; [destruct (_ || _)|]; eexists _, _; (split; [reflexivity|cbn; auto]).
+Qed.
+
+(* where a granted offset lies *)
+Lemma check_block_inside t b li a al ty mo t' r :
+  pow2 al -> pow2 (g_g (t_gran t)) ->
+  check_block t b li a al ty mo = CBOk t' r ->
+  b_off b <= rq_offset r /\ rq_offset r + a <= b_off b + b_size b /\ rq_offset r < mo.
+Proof.
+  intros Hal Hg Hc. apply check_block_spec in Hc.
+  destruct Hc as (_ & _ & _ & _ & _ & Hmo & _ & _ & _ & _ & _ & al' & Hcc & Hro & Hfit).
+  rewrite Hro in *. clear Hro.
+  pose proof (align_up_bounds (b_off b) al Hal) as ((Hlo & _) & _).
+  apply check_conflict_spec in Hcc. destruct Hcc as [->|(-> & Hfit2)].
+  - lia.
+  - pose proof (align_up_bounds (align_up (b_off b) al) (g_g (t_gran t)) Hg) as ((Hlo2 & _) & _). lia.
+Qed.
+
+Lemma check_block_too_small t b li a al ty mo :
+  pow2 al -> b_free b = true -> b_size b < a -> check_block t b li a al ty mo = CBFail.
+Proof.
+  intros Hal Hbf Hs. unfold check_block. rewrite Hbf. cbn [negb].
+  pose proof (align_up_bounds (b_off b) al Hal) as ((Hlo & _) & _).
+  destruct (Z.ltb_spec (b_size b) (a + align_up (b_off b) al - b_off b)); [reflexivity|lia].
+Qed.
+
+Lemma check_block_beyond t b li a al ty mo :
+  TInv t -> Inv2 t -> pow2 al -> 1 <= a -> b_free b = true -> (b = t_null t \/ In b (t_chain t)) ->
+  mo <= b_off b -> check_block t b li a al ty mo = CBFail.
+Proof.
+  intros HT HI Hal Ha Hbf Hw Hmo.
+  pose proof (check_block_nopanic t b li a al ty mo HT HI Hal Ha Hbf Hw) as Hnp.
+  destruct (check_block t b li a al ty mo) as [|t' r|] eqn:Hc; [reflexivity| |congruence].
+  apply check_block_inside in Hc; auto; [lia|apply HT].
+Qed.
+
+Lemma orelse_nf s f : orelse s f = SNotFound -> s = SNotFound /\ f tt = SNotFound.
+Proof. destruct s; cbn; auto; discriminate. Qed.
+
+Lemma of_sres_refused s : of_sres s = QRefused -> s = SNotFound.
+Proof. destruct s; cbn; auto; discriminate. Qed.
+
+Section Complete.
+  Variables (t : tlsf) (a al ty mo : Z).
+  Hypothesis HT : TInv t.
+  Hypothesis HI : Inv2 t.
+  Hypothesis Hal : pow2 al.
+  Hypothesis Ha : 1 <= a.
+
+  Definition fails (b : blk) : Prop := forall li, check_block t b li a al ty mo = CBFail.
+
+  (* every block of list i fails *)
+  Definition cov (i : Z) : Prop :=
+    forall b, In b (t_chain t) -> b_free b = true -> list_of_size (b_size b) = i -> fails b.
+
+  Lemma cov_empty i : list_at t i = [] -> cov i.
+  Proof.
+    intros He b Hin Hbf Hi. exfalso. pose proof (list_of_free t b (i2_fl _ HI) Hin Hbf) as Ho.
+    rewrite Hi, He in Ho. destruct Ho.
+  Qed.
+
+  Lemma check_list_nf idx offs :
+    check_list t idx offs a al ty mo = SNotFound ->
+    forall b, In b (t_chain t) -> In (b_off b) offs -> fails b.
+  Proof.
+    pose proof (g_chain _ (i_geom _ (proj1 HT))) as Hch.
+    induction offs as [|o offs IH]; cbn [check_list]; intros Hnf b Hin Ho; [destruct Ho|].
+    destruct (find_blk o (t_chain t)) as [b'|] eqn:Hf; [|discriminate].
+    destruct (check_block t b' (Some idx) a al ty mo) eqn:Hc; try discriminate.
+    destruct Ho as [->|Ho]; [|apply IH; auto].
+    rewrite (find_blk_unique _ _ _ Hch Hin) in Hf. injection Hf as <-.
+    intros li. eapply check_block_fail_any; eauto.
+  Qed.
+
+  Lemma check_list_cov idx : check_list t idx (list_at t idx) a al ty mo = SNotFound -> cov idx.
+  Proof.
+    intros Hnf b Hin Hbf Hi. eapply check_list_nf; eauto. rewrite <- Hi. apply list_of_free; auto. apply (i2_fl _ HI).
+  Qed.
+
+  Lemma full_search_cov idx fuel :
+    full_search t idx fuel a al ty mo = SNotFound -> zlen (t_lists t) - idx <= Z.of_nat fuel ->
+    forall i, idx <= i -> cov i.
+  Proof.
+    revert idx; induction fuel as [|f IH]; intros idx Hnf Hfuel i Hi.
+    - apply cov_empty. rewrite list_at_lat.
+      destruct (lat (t_lists t) i) eqn:E; auto. exfalso.
+      assert (Hne : lat (t_lists t) i <> []) by (rewrite E; discriminate).
+      apply lat_nonempty_range in Hne. lia.
+    - cbn [full_search] in Hnf. destruct (Z.leb_spec (zlen (t_lists t)) idx).
+      + apply cov_empty. rewrite list_at_lat.
+        destruct (lat (t_lists t) i) eqn:E; auto. exfalso.
+        assert (Hne : lat (t_lists t) i <> []) by (rewrite E; discriminate).
+        apply lat_nonempty_range in Hne. lia.
+      + destruct (check_list t idx (list_at t idx) a al ty mo) eqn:Hc; try discriminate.
+        destruct (Z.eq_dec i idx) as [->|Hne]; [apply check_list_cov; auto|].
+        apply (IH (idx + 1)); auto; lia.
+  Qed.
+
+  Lemma small_fails b : In b (t_chain t) -> b_free b = true -> list_of_size (b_size b) < list_of_size a -> fails b.
+  Proof.
+    intros Hin Hbf Hlt li. apply check_block_too_small; auto.
+    pose proof (FLt_blk_size t b (i2_fl _ HI) Hin Hbf). apply list_lt_size_lt; auto; lia.
+  Qed.
+
+  (* the two bucket searches plus the full search cover every list from list_of_size a on *)
+  Lemma cover_from_parts :
+    size_to_class a < 58 -> size_to_class (size_for_next_list a) < 58 ->
+    match find_free_block t (size_for_next_list a) with
+    | FFNone => True
+    | FFList nidx => cov nidx /\ forall i, nidx < i -> cov i
+    | FFPanic => False
+    end ->
+    match find_free_block t a with
+    | FFNone => True
+    | FFList pidx => cov pidx
+    | FFPanic => False
+    end ->
+    forall b, In b (t_chain t) -> b_free b = true -> fails b.
+  Proof.
+    intros Hca Hcn Hn Hp b Hin Hbf.
+    pose proof (find_free_block_spec t (size_for_next_list a) (i2_fl _ HI)
+                  ltac:(pose proof (size_for_next_list_gt a Ha); lia) Hcn) as Sn.
+    pose proof (find_free_block_spec t a (i2_fl _ HI) Ha Hca) as Sp.
+    rewrite next_list_exact in Sn by auto.
+    set (i := list_of_size (b_size b)).
+    pose proof (list_of_free t b (i2_fl _ HI) Hin Hbf) as Ho. fold i in Ho.
+    assert (Hne : list_at t i <> []) by (intros E; rewrite E in Ho; destruct Ho).
+    destruct (Z_lt_ge_dec i (list_of_size a)) as [Hlt|Hge]; [apply small_fails; auto|].
+    destruct (find_free_block t a) as [|pidx|]; [exfalso; apply Hne; apply Sp; lia| |destruct Hp].
+    destruct Sp as (Sp1 & Sp2 & Sp3).
+    destruct (Z_lt_ge_dec i pidx) as [Hlt|Hge2]; [exfalso; apply Hne; apply Sp3; lia|].
+    destruct (Z.eq_dec i pidx) as [E|Hne2]; [apply (Hp b); auto; congruence|].
+    destruct (find_free_block t (size_for_next_list a)) as [|nidx|]; [exfalso; apply Hne; apply Sn; lia| |destruct Hn].
+    destruct Sn as (Sn1 & Sn2 & Sn3). destruct Hn as (Hn1 & Hn2).
+    destruct (Z_lt_ge_dec i nidx) as [Hlt|Hge3]; [exfalso; apply Hne; apply Sn3; lia|].
+    destruct (Z.eq_dec i nidx) as [E|Hne3]; [apply (Hn1 b); auto|].
+    apply (Hn2 i); auto. lia.
+  Qed.
+
+  Lemma min_offset_walk_nf c o :
+    chain_from o c -> incl c (t_chain t) ->
+    min_offset_walk t c a al ty mo = SNotFound ->
+    forall b, In b c -> b_free b = true -> fails b.
+  Proof.
+    revert o; induction c as [|x c IH]; intros o Hch Hinc Hnf b Hin Hbf; [destruct Hin|].
+    cbn [chain_from] in Hch. destruct Hch as (Hxo & Hxs & Hc).
+    assert (Hinc' : incl c (t_chain t)) by (intros y Hy; apply Hinc; right; auto).
+    cbn [min_offset_walk] in Hnf.
+    destruct (Z.leb_spec mo (b_off x)) as [Hmo|Hmo].
+    - (* break: this and all later blocks start at or after maxOffset *)
+      intros li. apply check_block_beyond; auto.
+      destruct Hin as [->|Hin]; [lia|]. pose proof (chain_in_bounds _ _ _ Hc Hin). lia.
+    - destruct Hin as [->|Hin].
+      + rewrite Hbf in Hnf. cbn [andb] in Hnf.
+        destruct (Z.leb_spec a (b_size b)).
+        * destruct (check_block t b _ a al ty mo) eqn:Hcb; try discriminate.
+          intros li. eapply check_block_fail_any; eauto.
+        * intros li. apply check_block_too_small; auto; lia.
+      + apply (IH _ Hc Hinc'); auto.
+        destruct (b_free x && (a <=? b_size x)); auto.
+        destruct (check_block t x _ a al ty mo); try discriminate; auto.
+  Qed.
+
+  Lemma check_null_nf : check_null t a al ty mo = SNotFound -> fails (t_null t).
+  Proof.
+    unfold check_null. destruct (check_block t (t_null t) None a al ty mo) eqn:Hc; try discriminate.
+    intros _ li. eapply check_block_fail_any; eauto.
+  Qed.
+End Complete.
+
+Definition free_region (t : tlsf) (f : blk) : Prop := f = t_null t \/ (In f (t_chain t) /\ b_free f = true).
+
+Lemma free_region_size_le t f : Inv1 t -> Inv2 t -> free_region t f -> b_size f <= sum_free_size t.
+Proof.
+  intros Hinv HI [->|(Hin & Hbf)].
+  - pose proof (sum_free_size_le t Hinv HI). unfold sum_free_size. lia.
+  - pose proof (g_null_size _ (i_geom _ Hinv)). unfold sum_free_size.
+    rewrite (fl_fs _ _ _ _ _ _ _ (i2_fl _ HI)).
+    assert (Hf : In f (frees (t_chain t))) by (apply frees_In; auto).
+    pose proof (fl_wf _ _ _ _ _ _ _ (i2_fl _ HI)) as Hwf.
+    clear - Hf Hwf H. induction (frees (t_chain t)) as [|x l IH]; [destruct Hf|].
+    inversion Hwf as [|? ? (_ & _ & Hx) Hwf']; subst. cbn [sum_sizes].
+    assert (0 <= sum_sizes l).
+    { clear - Hwf'. induction l as [|y l IH]; cbn; [lia|]. inversion Hwf' as [|? ? (_ & _ & Hy) H']; subst.
+      specialize (IH H'). lia. }
+    destruct Hf as [->|Hf]; [lia|]. specialize (IH Hf Hwf'). lia.
+Qed.
+
+Theorem request_complete t size0 align0 ty strat mo :
+  TInv t -> Inv2 t -> pow2 align0 ->
+  create_request t size0 align0 false ty strat mo = QRefused ->
+  forall f li, free_region t f ->
+    check_block t f li (fst (round_up (t_gran t) ty size0 align0)) (snd (round_up (t_gran t) ty size0 align0)) ty mo
+    = CBFail.
+Proof.
+  intros HT HI Hal0. unfold create_request.
+  destruct (Z.ltb_spec size0 1); [discriminate|].
+  pose proof (round_up_spec (t_gran t) ty size0 align0 (proj2 HT) Hal0) as Hru.
+  destruct (round_up (t_gran t) ty size0 align0) as [a al]. cbn [fst snd].
+  destruct Hru as (Hsz & Hal & _).
+  assert (Ha : 1 <= a) by lia.
+  assert (Hfree : forall f, free_region t f -> b_free f = true).
+  { intros f [->|(_ & Hf)]; auto. apply (g_null_free _ (i_geom _ (proj1 HT))). }
+  destruct (Z.ltb_spec (sum_free_size t) a) as [Hsmall|Hfit].
+  { intros _ f li Hf. apply check_block_too_small; auto.
+    pose proof (free_region_size_le t f (proj1 HT) HI Hf). lia. }
+  pose proof (sum_free_size_le t (proj1 HT) HI) as (_ & Hsum).
+  pose proof (fl_size _ _ _ _ _ _ _ (i2_fl _ HI)) as Hts.
+  assert (Hca : size_to_class a < 58) by (apply class_lt_58; lia).
+  pose proof (next_list_bound a Ha) as Hnb. pose proof (size_for_next_list_gt a Ha) as Hng.
+  assert (Hcn : size_to_class (size_for_next_list a) < 58) by (apply class_lt_58; lia).
+  assert (Hall : (forall b, In b (t_chain t) -> b_free b = true -> fails t a al ty mo b) ->
+                 fails t a al ty mo (t_null t) ->
+                 forall f li, free_region t f -> check_block t f li a al ty mo = CBFail).
+  { intros H1 H2 f li [->|(Hin & Hbf)]; [apply H2|apply H1; auto]. }
+  destruct (Z.eqb_spec (t_free_count t) 0) as [Hfc|Hfc].
+  { (* no free chain block at all *)
+    assert (Hnone : forall b, In b (t_chain t) -> b_free b = true -> fails t a al ty mo b).
+    { intros b Hin Hbf. exfalso. rewrite (fl_fc _ _ _ _ _ _ _ (i2_fl _ HI)) in Hfc.
+      assert (In b (frees (t_chain t))) by (apply frees_In; auto).
+      destruct (frees (t_chain t)); [auto|]. rewrite zlen_cons in Hfc. unfold zlen in Hfc. lia. }
+    destruct (Z.testbit strat 2 && (mo <? b_off (t_null t))) eqn:Hb.
+    - intros _. apply Hall; auto. intros li. apply check_block_beyond; auto.
+      + apply (g_null_free _ (i_geom _ (proj1 HT))).
+      + apply andb_true_iff in Hb. destruct Hb as (_ & Hb). apply Z.ltb_lt in Hb. lia.
+    - intros Hq. apply of_sres_refused in Hq. apply Hall; auto. eapply check_null_nf; eauto. }
+  pose proof (fun idx => check_list_cov t a al ty mo HT HI idx) as Hcl.
+  assert (Hnpos : forall nidx, find_free_block t (size_for_next_list a) = FFList nidx -> 0 <= nidx).
+  { intros nidx E. pose proof (find_free_block_spec t (size_for_next_list a) (i2_fl _ HI) ltac:(lia) Hcn) as S.
+    rewrite E in S. destruct S as (S1 & _). pose proof (list_of_size_nonneg (size_for_next_list a) ltac:(lia)). lia. }
+  assert (Hprev : match find_free_block t a with
+                  | FFPanic => SPanic | FFNone => SNotFound
+                  | FFList pidx => check_list t pidx (list_at t pidx) a al ty mo end = SNotFound ->
+                  match find_free_block t a with
+                  | FFNone => True | FFList pidx => cov t a al ty mo pidx | FFPanic => False end).
+  { intros E. destruct (find_free_block t a); [exact I|apply Hcl; auto|discriminate]. }
+  destruct (Z.testbit strat 1).
+  { (* MinTime *)
+    destruct (find_free_block t (size_for_next_list a)) as [|nidx|] eqn:Hn; [| |discriminate].
+    - intros Hq. apply of_sres_refused in Hq. apply orelse_nf in Hq. destruct Hq as (Hnull & Hp).
+      apply Hall; [|eapply check_null_nf; eauto].
+      apply (cover_from_parts t a al ty mo HI Hal Ha Hca Hcn); [rewrite Hn; exact I|].
+      apply Hprev; exact Hp.
+    - intros Hq. apply of_sres_refused in Hq.
+      apply orelse_nf in Hq. destruct Hq as (_ & Hq).
+      apply orelse_nf in Hq. destruct Hq as (Hnull & Hq).
+      apply orelse_nf in Hq. destruct Hq as (Hnl & Hq).
+      apply orelse_nf in Hq. destruct Hq as (Hp & Hfull).
+      apply Hall; [|eapply check_null_nf; eauto].
+      apply (cover_from_parts t a al ty mo HI Hal Ha Hca Hcn); [rewrite Hn|apply Hprev; exact Hp].
+      split; [apply Hcl; auto|]. intros i Hi. pose proof (Hnpos _ eq_refl).
+      eapply (full_search_cov t a al ty mo HT HI); eauto; unfold zlen; lia. }
+  destruct (Z.testbit strat 0).
+  { (* MinMemory *)
+    destruct (find_free_block t a) as [|pidx|] eqn:Hp; [| |discriminate];
+      intros Hq; apply of_sres_refused in Hq;
+      apply orelse_nf in Hq; destruct Hq as (Hpl & Hq);
+      apply orelse_nf in Hq; destruct Hq as (Hnull & Hq);
+      (apply Hall; [|eapply check_null_nf; eauto]);
+      (apply (cover_from_parts t a al ty mo HI Hal Ha Hca Hcn); [|rewrite Hp; auto]);
+      destruct (find_free_block t (size_for_next_list a)) as [|nidx|] eqn:Hn; auto; try discriminate;
+      apply orelse_nf in Hq; destruct Hq as (Hnl & Hfull);
+      (split; [apply Hcl; auto|]); intros i Hi; pose proof (Hnpos _ eq_refl);
+      eapply (full_search_cov t a al ty mo HT HI); eauto; unfold zlen; lia. }
+  destruct (Z.testbit strat 2).
+  { (* MinOffset *)
+    intros Hq. apply of_sres_refused in Hq. apply orelse_nf in Hq. destruct Hq as (Hw & Hnull).
+    apply Hall; [|eapply check_null_nf; eauto].
+    intros b Hin Hbf. eapply (min_offset_walk_nf t a al ty mo HT HI Hal Ha (t_chain t) 0); eauto.
+    - apply (g_chain _ (i_geom _ (proj1 HT))).
+    - apply incl_refl. }
+  (* default *)
+  destruct (find_free_block t (size_for_next_list a)) as [|nidx|] eqn:Hn; [| |discriminate].
+  - intros Hq. apply of_sres_refused in Hq.
+    apply orelse_nf in Hq. destruct Hq as (_ & Hq).
+    apply orelse_nf in Hq. destruct Hq as (Hnull & Hq).
+    apply orelse_nf in Hq. destruct Hq as (Hp & _).
+    apply Hall; [|eapply check_null_nf; eauto].
+    apply (cover_from_parts t a al ty mo HI Hal Ha Hca Hcn); [rewrite Hn; exact I|].
+    apply Hprev; exact Hp.
+  - intros Hq. apply of_sres_refused in Hq.
+    apply orelse_nf in Hq. destruct Hq as (Hnl & Hq).
+    apply orelse_nf in Hq. destruct Hq as (Hnull & Hq).
+    apply orelse_nf in Hq. destruct Hq as (Hp & Hfull).
+    apply Hall; [|eapply check_null_nf; eauto].
+    apply (cover_from_parts t a al ty mo HI Hal Ha Hca Hcn); [rewrite Hn|apply Hprev; exact Hp].
+    split; [apply Hcl; auto|]. intros i Hi. pose proof (Hnpos _ eq_refl).
+    eapply (full_search_cov t a al ty mo HT HI); eauto; unfold zlen; lia.
+Qed.
+
+(* ------------------------------------------------------------------ D: what checkBlock's verdict means *)
+
+(* with a disabled handler (accept-all, or granularity <= 256) checkBlock fails exactly when the
+   range cannot hold a bytes at a multiple of al below maxOffset *)
+Theorem check_block_semantic t b li a al ty mo :
+  enabled (t_gran t) = false -> pow2 al -> b_free b = true ->
+  (check_block t b li a al ty mo = CBFail <->
+   ~ exists off, b_off b <= off /\ off mod al = 0 /\ off + a <= b_off b + b_size b /\ off < mo).
+Proof.
+  intros Hdis Hal Hbf.
+  pose proof (align_up_bounds (b_off b) al Hal) as ((Hlo & _) & Hmod).
+  unfold check_block. rewrite Hbf. cbn [negb]. unfold check_conflict. rewrite Hdis. cbn [negb].
+  destruct (Z.ltb_spec (b_size b) (a + align_up (b_off b) al - b_off b)) as [Hs|Hs].
+  - split; [intros _|reflexivity]. intros (off & H1 & H2 & H3 & H4).
+    pose proof (align_up_least (b_off b) al off Hal H1 H2). lia.
+  - destruct (Z.leb_spec mo (align_up (b_off b) al)) as [Hm|Hm].
+    + split; [intros _|reflexivity]. intros (off & H1 & H2 & H3 & H4).
+      pose proof (align_up_least (b_off b) al off Hal H1 H2). lia.
+    + split.
+      * intros H. exfalso. destruct li as [idx|]; [destruct (_ || _)|]; discriminate.
+      * intros H. exfalso. apply H. exists (align_up (b_off b) al). repeat split; auto; lia.
+Qed.
+
+(* every granted request lies below maxOffset *)
+Theorem bounded_below_bound t size0 align0 upper ty strat mo t' r :
+  create_request t size0 align0 upper ty strat mo = QGranted t' r -> rq_offset r < mo.
+Proof.
+  intros H. apply create_request_granted in H. destruct H as (_ & _ & b & li & Hc & _).
+  apply check_block_spec in Hc. tauto.
+Qed.
+
+(* ------------------------------------------------------------------ D: MayHaveFreeBlock has no false negatives *)
+
+Lemma round_up_size_align g ty size al1 al2 : fst (round_up g ty size al1) = fst (round_up g ty size al2).
+Proof.
+  unfold round_up. destruct (g_h g); [reflexivity|]. destruct (g_g g >? 1); [|reflexivity].
+  destruct (_ || _); reflexivity.
+Qed.
+
+Lemma of_sres_not_error s : of_sres s <> QError.
+Proof. destruct s; discriminate. Qed.
+
+Lemma create_request_error t size align upper ty strat mo :
+  create_request t size align upper ty strat mo = QError -> size < 1 \/ upper = true.
+Proof.
+  unfold create_request. destruct (Z.ltb_spec size 1); [auto|]. destruct upper; [auto|].
+  destruct (round_up (t_gran t) ty size align) as [a al].
+  destruct (sum_free_size t <? a); [discriminate|].
+  destruct (t_free_count t =? 0).
+  { destruct (_ && _); [discriminate|]. intros H'. apply of_sres_not_error in H'. destruct H'. }
+  destruct (Z.testbit strat 1).
+  { destruct (find_free_block t (size_for_next_list a)); try discriminate;
+      intros H'; apply of_sres_not_error in H'; destruct H'. }
+  destruct (Z.testbit strat 0).
+  { destruct (find_free_block t a); try discriminate;
+      intros H'; apply of_sres_not_error in H'; destruct H'. }
+  destruct (Z.testbit strat 2).
+  { intros H'; apply of_sres_not_error in H'; destruct H'. }
+  destruct (find_free_block t (size_for_next_list a)); try discriminate;
+    intros H'; apply of_sres_not_error in H'; destruct H'.
+Qed.
+
+Theorem may_have_sound t ty size align strat mo :
+  TInv t -> Inv2 t -> pow2 align ->
+  may_have_free t ty size = false ->
+  create_request t size align false ty strat mo = QRefused.
+Proof.
+  intros HT HI Hal Hmay.
+  pose proof (create_request_ok t size align false ty strat mo HT HI Hal) as Hok.
+  pose proof (g_null_size _ (i_geom _ (proj1 HT))) as Hnsz.
+  unfold may_have_free in Hmay.
+  destruct (Z.leb_spec size (b_size (t_null t))) as [|Hnull]; [discriminate|].
+  assert (Hs1 : 1 <= size) by lia.
+  destruct (create_request t size align false ty strat mo) as [t' r| | |] eqn:Hcr; [exfalso|reflexivity| |destruct Hok].
+  2:{ exfalso. apply create_request_error in Hcr. destruct Hcr; [lia|discriminate]. }
+  destruct Hok as (_ & _ & b & li & Hcb & Hwhere).
+  pose proof (round_up_spec (t_gran t) ty size align (proj2 HT) Hal) as Hru.
+  rewrite (round_up_size_align (t_gran t) ty size align 1) in Hcb.
+  destruct (round_up (t_gran t) ty size align) as [a0 al]. cbn [fst snd] in *.
+  destruct Hru as (_ & Hpal & _).
+  destruct (round_up (t_gran t) ty size 1) as [a al1] eqn:Hr1. cbn [fst] in Hcb.
+  pose proof (round_up_spec (t_gran t) ty size 1 (proj2 HT) pow2_1) as Hru1. rewrite Hr1 in Hru1.
+  destruct Hru1 as (Hsa & _).
+  pose proof (check_block_inside _ _ _ _ _ _ _ _ _ Hpal (proj2 HT) Hcb) as (I1 & I2 & _).
+  assert (Hbig : a <= b_size b) by lia.
+  destruct Hwhere as [(_ & ->)|(idx & _ & Hin & Hbf & _)]; [lia|].
+  destruct (Z.ltb_spec (t_free_size t) size) as [Hfs|Hfs].
+  - pose proof (free_region_size_le t b (proj1 HT) HI (or_intror (conj Hin Hbf))) as Hle.
+    unfold sum_free_size in Hle.
+    (* b is one of the free chain blocks, so its size is at most their sum *)
+    assert (Hle2 : b_size b <= t_free_size t).
+    { rewrite (fl_fs _ _ _ _ _ _ _ (i2_fl _ HI)).
+      assert (Hf : In b (frees (t_chain t))) by (apply frees_In; auto).
+      pose proof (fl_wf _ _ _ _ _ _ _ (i2_fl _ HI)) as Hwf.
+      clear - Hf Hwf. induction (frees (t_chain t)) as [|x l IH]; [destruct Hf|].
+      inversion Hwf as [|? ? (_ & _ & Hx) Hwf']; subst. cbn [sum_sizes].
+      assert (0 <= sum_sizes l).
+      { clear - Hwf'. induction l as [|y l IH]; cbn; [lia|]. inversion Hwf' as [|? ? (_ & _ & Hy) H']; subst.
+        specialize (IH H'). lia. }
+      destruct Hf as [->|Hf]; [lia|]. specialize (IH Hf Hwf'). lia. }
+    lia.
+  - (* no outer bit at or above the class of the rounded size, yet b is free and at least as large *)
+    pose proof (FLt_blk_size t b (i2_fl _ HI) Hin Hbf) as Hbs.
+    pose proof (fl_size _ _ _ _ _ _ _ (i2_fl _ HI)) as Hts.
+    pose proof (class_valid_pair (b_size b) ltac:(lia)) as Hvp.
+    destruct (valid_pair_range _ _ Hvp) as (Hmc & Hsl).
+    assert (Hbit : N.testbit (t_bitmap t) (Z.to_N (size_to_class (b_size b))) = true).
+    { apply outer_bit; [apply (i2_fl _ HI)|lia|]. apply N_nonzero_bit.
+      exists (size_to_sli (b_size b) (size_to_class (b_size b))). split; [lia|].
+      apply inner_bit; [apply (i2_fl _ HI)|lia|lia|]. split; auto.
+      rewrite list_of_size_unfold. intros E.
+      pose proof (list_of_free t b (i2_fl _ HI) Hin Hbf) as Ho. rewrite E in Ho. destruct Ho. }
+    pose proof (class_sli_nonneg a ltac:(lia)) as (Hca & _).
+    pose proof (lowest_ge_spec (t_bitmap t) (size_to_class a) Hca) as Hl.
+    destruct (lowest_ge (t_bitmap t) (size_to_class a)); [discriminate|].
+    pose proof (size_to_class_mono a (b_size b) ltac:(lia) Hbig) as Hmono.
+    rewrite (Hl (size_to_class (b_size b)) ltac:(lia)) in Hbit. discriminate.
+Qed.
+
+(* ------------------------------------------------------------------ D: MinOffset really yields the lowest offset *)
+
+Lemma min_offset_walk_first t a al ty mo c o t' r :
+  TInv t -> Inv2 t -> pow2 al -> 1 <= a ->
+  chain_from o c -> incl c (t_chain t) ->
+  min_offset_walk t c a al ty mo = SFound t' r ->
+  exists pre b0 post, c = pre ++ b0 :: post /\ b_free b0 = true /\
+    (exists li, check_block t b0 li a al ty mo = CBOk t' r) /\
+    forall b, In b pre -> b_free b = true -> forall li, check_block t b li a al ty mo = CBFail.
+Proof.
+  intros HT HI Hal Ha. revert o; induction c as [|x c IH]; intros o Hch Hinc Hw; [discriminate|].
+  cbn [chain_from] in Hch. destruct Hch as (Hxo & Hxs & Hc).
+  assert (Hinc' : incl c (t_chain t)) by (intros y Hy; apply Hinc; right; auto).
+  cbn [min_offset_walk] in Hw.
+  destruct (mo <=? b_off x); [discriminate|].
+  assert (Hrec : min_offset_walk t c a al ty mo = SFound t' r ->
+                 (b_free x = true -> forall li, check_block t x li a al ty mo = CBFail) ->
+                 exists pre b0 post, x :: c = pre ++ b0 :: post /\ b_free b0 = true /\
+                   (exists li, check_block t b0 li a al ty mo = CBOk t' r) /\
+                   forall b, In b pre -> b_free b = true -> forall li, check_block t b li a al ty mo = CBFail).
+  { intros Hw' Hx. destruct (IH _ Hc Hinc' Hw') as (pre & b0 & post & -> & Hb0 & Hok & Hpre).
+    exists (x :: pre), b0, post. split; [reflexivity|]. split; auto. split; auto.
+    intros b [->|Hb] Hbf; auto. }
+  destruct (b_free x) eqn:Hbf; cbn [andb] in Hw; [|apply Hrec; auto; discriminate].
+  destruct (Z.leb_spec a (b_size x)).
+  - destruct (check_block t x _ a al ty mo) eqn:Hcb; try discriminate.
+    + apply Hrec; auto. intros _ li. eapply check_block_fail_any; eauto.
+    + injection Hw as <- <-. exists [], x, c. split; [reflexivity|]. split; auto. split; [eauto|].
+      intros b [].
+  - apply Hrec; auto. intros _ li. apply check_block_too_small; auto; lia.
+Qed.
+
+Theorem min_offset_lowest t size0 align0 ty strat mo t' r :
+  TInv t -> Inv2 t -> pow2 align0 ->
+  Z.testbit strat 2 = true -> Z.testbit strat 1 = false -> Z.testbit strat 0 = false ->
+  create_request t size0 align0 false ty strat mo = QGranted t' r ->
+  forall f li t'' r'', free_region t f ->
+    check_block t f li (fst (round_up (t_gran t) ty size0 align0)) (snd (round_up (t_gran t) ty size0 align0)) ty mo
+    = CBOk t'' r'' ->
+    rq_offset r <= rq_offset r''.
+Proof.
+  intros HT HI Hal0 H2 H1 H0. unfold create_request.
+  destruct (Z.ltb_spec size0 1); [discriminate|].
+  pose proof (round_up_spec (t_gran t) ty size0 align0 (proj2 HT) Hal0) as Hru.
+  destruct (round_up (t_gran t) ty size0 align0) as [a al]. cbn [fst snd].
+  destruct Hru as (Hsz & Hal & _).
+  assert (Ha : 1 <= a) by lia.
+  destruct (sum_free_size t <? a); [discriminate|].
+  pose proof (proj1 HT) as Hinv. pose proof Hinv as [[Hch Hnoff Hnsz Htot Hnfree] _ _ _].
+  (* the null block lies after every chain block *)
+  assert (Hnull_case : forall tn rn, check_null t a al ty mo = SFound tn rn ->
+             (forall b, In b (t_chain t) -> b_free b = true -> forall li, check_block t b li a al ty mo = CBFail) ->
+             forall f li t'' r'', free_region t f -> check_block t f li a al ty mo = CBOk t'' r'' ->
+                                  rq_offset rn <= rq_offset r'').
+  { intros tn rn Hn Hchainfail f li t'' r'' [->|(Hin & Hbf)] Hf.
+    - unfold check_null in Hn. destruct (check_block t (t_null t) None a al ty mo) eqn:Hc; try discriminate.
+      injection Hn as <- <-. destruct (check_block_ok_any _ _ _ None _ _ _ _ _ _ Hf) as (t2 & r2 & E & <-).
+      rewrite Hc in E. injection E as _ <-. lia.
+    - rewrite (Hchainfail f Hin Hbf li) in Hf. discriminate. }
+  destruct (Z.eqb_spec (t_free_count t) 0) as [Hfc|Hfc].
+  { destruct (_ && _); [discriminate|]. intros Hq. apply of_sres_granted in Hq.
+    apply (Hnull_case _ _ Hq). intros b Hin Hbf. exfalso.
+    rewrite (fl_fc _ _ _ _ _ _ _ (i2_fl _ HI)) in Hfc.
+    assert (In b (frees (t_chain t))) by (apply frees_In; auto).
+    destruct (frees (t_chain t)); [auto|]. rewrite zlen_cons in Hfc. unfold zlen in Hfc. lia. }
+  rewrite H1, H0, H2. intros Hq. apply of_sres_granted in Hq. apply orelse_found in Hq.
+  destruct Hq as [Hw|(Hw & Hn)].
+  - destruct (min_offset_walk_first t a al ty mo (t_chain t) 0 t' r HT HI Hal Ha Hch (incl_refl _) Hw)
+      as (pre & b0 & post & Hc & Hb0 & (li0 & Hok) & Hpre).
+    pose proof (check_block_inside _ _ _ _ _ _ _ _ _ Hal (proj2 HT) Hok) as (I1 & I2 & _).
+    intros f li t'' r'' Hf Hcf.
+    pose proof (check_block_inside _ _ _ _ _ _ _ _ _ Hal (proj2 HT) Hcf) as (J1 & J2 & _).
+    rewrite Hc in Hch.
+    destruct Hf as [->|(Hin & Hbf)].
+    + (* the null block starts after b0 ends *)
+      pose proof (chain_in_bounds _ _ b0 Hch ltac:(apply in_app_mid; auto)) as (_ & _ & Hend).
+      rewrite <- Hc in Hend. lia.
+    + rewrite Hc in Hin. apply in_app_mid in Hin. destruct Hin as [->|Hin].
+      * destruct (check_block_ok_any _ _ _ li0 _ _ _ _ _ _ Hcf) as (t2 & r2 & E & <-).
+        rewrite Hok in E. injection E as _ <-. lia.
+      * apply in_app_iff in Hin. destruct Hin as [Hin|Hin].
+        -- rewrite (Hpre f Hin Hbf li) in Hcf. discriminate.
+        -- pose proof (chain_split_order _ _ _ _ b0 f Hch) as Hord.
+           assert (Hord' : forall x, In x post -> b_off b0 + b_size b0 <= b_off x).
+           { intros x Hx. apply chain_from_app in Hch. destruct Hch as (_ & Hq). cbn [chain_from] in Hq.
+             destruct Hq as (Ho0 & Hs0 & Hpost). pose proof (chain_in_bounds _ _ _ Hpost Hx). lia. }
+           specialize (Hord' f Hin). lia.
+  - apply (Hnull_case _ _ Hn).
+    intros b Hin Hbf. eapply (min_offset_walk_nf t a al ty mo HT HI Hal Ha (t_chain t) 0); eauto. apply incl_refl.
+Qed.
